@@ -285,11 +285,31 @@ let parse_e2e (o : string) : e2e_op =
       | _ -> failwith ("bad op " ^ o))
   | _ -> failwith ("bad scenario op " ^ o)
 
+(* back-pressure (ops B / b): while the services answer Pending to their readiness checks a worker receives nothing from its
+   connection queue (ServerWorker::poll, state Unavailable): connections dispatched to it are counted (accept-side counter) but their
+   service calls have not started.  In Model/Srv.v a Pick changes nothing but the place of the connection (w_queue -> w_picked), so
+   the oracle's state is the same whenever the picks happen; only what is SHOWN differs: service calls dispatched while blocked are
+   listed at the `b` that ends the episode, and the in-progress vector shown while blocked counts started calls only. *)
+let blocked = ref false
+let unstarted : (int * int * int) list ref = ref []
+
 let bld_step lz call_of (st, cid) (o : string) : (state * int) * string =
   if o = "H" then begin
     (* graceful stop with the connections held through shutdown_timeout: completes at the timeout *)
     let busy = List.exists (fun wk -> wk.w_queue <> [] || wk.w_picked <> []) st.ws in
     ((st, cid), if busy then "H=timeout" else "H=idle")
+  end else
+  if o = "B" || o = "b" then begin
+    let started = if o = "b" then List.sort compare !unstarted else [] in
+    blocked := (o = "B");
+    if o = "b" then unstarted := [];
+    let nw = List.fold_left (fun m wk -> max m (int_of_n wk.w_idx + 1)) 0 st.ws in
+    let act = List.init nw (fun i -> List.fold_left (fun a wk ->
+      if int_of_n wk.w_idx = i then a + List.length wk.w_queue + List.length wk.w_picked else a) 0 st.ws
+      - List.length (List.filter (fun (_, _, w) -> w = i) !unstarted)) in
+    ((st, cid), Printf.sprintf "%s=%s/a%s" o
+       (String.concat "," (List.map (fun (c, cl, i) -> Printf.sprintf "%d@%dw%d" c cl i) started))
+       (String.concat "." (List.map string_of_int act)))
   end else
   if o = "G" then begin
     (* graceful stop as the last op: waits for the connections in progress (C06); the accept/worker model of this driver only says
@@ -322,13 +342,15 @@ let bld_step lz call_of (st, cid) (o : string) : (state * int) * string =
       | EvDispatch (c, tok, _, idx, _) when not (List.mem (int_of_n c) !poisoned) -> Some (int_of_n c, call_of tok, int_of_n idx)
       | _ -> None) evs in
     let served = List.sort compare served in
+    let served = if !blocked then (unstarted := served @ !unstarted; []) else served in
     (* a connection dropped for want of a live worker is seen by its client as a close without greeting; an abortive client (op A)
        is no longer there to see it *)
     let dropped = List.sort compare (List.filter_map (function
       | EvDropNoWorker c when not (List.mem (int_of_n c) !abortive) -> Some (int_of_n c) | _ -> None) evs) in
     let nw = List.fold_left (fun m wk -> max m (int_of_n wk.w_idx + 1)) 0 st'.ws in
     let act = List.init nw (fun i -> List.fold_left (fun a wk ->
-      if int_of_n wk.w_idx = i then a + List.length wk.w_queue + List.length wk.w_picked else a) 0 st'.ws) in
+      if int_of_n wk.w_idx = i then a + List.length wk.w_queue + List.length wk.w_picked else a) 0 st'.ws
+      - List.length (List.filter (fun (_, _, w) -> w = i) !unstarted)) in
     ((st', cid'), Printf.sprintf "%s=%s/a%s" o
        (String.concat "," (List.map (fun i -> Printf.sprintf "x@w%d" i) panicked
                            @ List.map (fun (c, cl, i) -> Printf.sprintf "%d@%dw%d" c cl i) served
@@ -342,7 +364,7 @@ let bld (line : string) : string =
   let lz = z_of_int l in
   let ops = List.filter (fun s -> s <> "") (String.split_on_char ' ' (List.assoc "ops" fields)) in
   let st0 = init (nat_of_int w) kinds in
-  poisoned := []; abortive := [];
+  poisoned := []; abortive := []; blocked := false; unstarted := [];
   let (_, outs) = List.fold_left (fun (acc, outs) o ->
     let (acc', s) = bld_step lz call_of acc o in (acc', s :: outs)) ((st0, 0), []) ops in
   String.concat " ; " (List.rev outs)
@@ -359,20 +381,25 @@ let bldgen (line : string) : string =
   let has c = String.contains flags c in
   let nl = List.length kinds in
   let acc = ref (init (nat_of_int w) kinds, 0) in
-  poisoned := []; abortive := [];
+  poisoned := []; abortive := []; blocked := false; unstarted := [];
   let out = ref [] in
   let emit o = let (a, _) = bld_step lz call_of !acc o in acc := a; out := o :: !out in
   for _ = 1 to geti "len" do
     let st = fst !acc in
     let picked = List.concat_map (fun wk -> List.map (fun cn -> int_of_n cn.c_id) wk.w_picked) st.ws in
+    let picked = List.filter (fun c -> not (List.exists (fun (u, _, _) -> u = c) !unstarted)) picked in
     let backoff = List.exists (fun ls -> ls.l_to <> None) st.lsts in
     let c = ref [] in
     let add wgt o = for _ = 1 to wgt do c := o :: !c done in
     add 6 `C;
+    (* not while an abortive client still waits in a backlog: its service call would be dispatched during the episode and end — in
+       reality — only after it *)
+    let abortive_waiting = List.exists (fun ls -> List.exists (fun cn -> List.mem (int_of_n cn) !abortive) ls.l_backlog) st.lsts in
+    if has 'b' then (if !blocked then add 3 `Unblock else if not backoff && not abortive_waiting then add 2 `Block);
     (* an abortive client's service call ends by itself, at a moment of its own choosing: with several workers that moment decides
        which worker takes the next connection, so there the client is only used where it is dispatched at once and alone;
        with one worker every interleaving ends in the same settled state and it may also wait in a backlog (paused, saturated) *)
-    if has 'a' && (w = 1 || (not backoff && not st.paused && available st.av && List.for_all (fun ls -> ls.l_backlog = []) st.lsts))
+    if has 'a' && not !blocked && (w = 1 || (not backoff && not st.paused && available st.av && List.for_all (fun ls -> ls.l_backlog = []) st.lsts))
     then add (if w = 1 then 3 else 2) `A;
     if picked <> [] then add 5 `F;
     if has 'c' then (if st.paused then add 4 `R else add 1 `P; if rand 8 = 0 then add 1 (if st.paused then `P else `R));
@@ -380,9 +407,9 @@ let bldgen (line : string) : string =
     if has 'q' then add 2 `Q;
     (* not as the first operation: lowering RLIMIT_NOFILE right after start-up can hit a worker thread that is still building its
        Tokio runtime (which needs descriptors); one served connection later every worker is certainly up *)
-    if has 'i' && not backoff && not st.paused && available st.av && snd !acc > 0 then add 1 `E;
+    if has 'i' && not !blocked && not backoff && not st.paused && available st.av && snd !acc > 0 then add 1 `E;
     (* a poisoned connection must be dispatched at once (flag available, not paused, registered) to a live worker: every handle's worker is open *)
-    if has 'k' && not backoff && not st.paused && available st.av
+    if has 'k' && not !blocked && not backoff && not st.paused && available st.av
        && List.for_all (fun g -> match nth_error st.ws (nat_of_int g) with Some wk -> wk.w_open | None -> false) (List.map int_of_nat st.handles)
        && List.for_all (fun ls -> ls.l_backlog = []) st.lsts then add 1 `K;
     if backoff then add 4 `T;
@@ -391,6 +418,7 @@ let bldgen (line : string) : string =
     (match (if backoff then (if has 'c' && not st.paused && rand 4 = 0 then `P else `T) else pick_from !c) with
      | `C -> emit (Printf.sprintf "c%d" (rand nl))
      | `A -> emit (Printf.sprintf "A%d" (rand nl))
+     | `Block -> emit "B" | `Unblock -> emit "b"
      | `F -> emit (Printf.sprintf "f%d" (pick_from picked))
      | `P -> emit "P" | `R -> emit "R"
      | `Q -> let shapes = if st.paused then [| "PR"; "PR"; "PPR"; "RP"; "RPR"; "PRP"; "RR" |] else [| "RP"; "RP"; "RRP"; "PR"; "PRP"; "RPR"; "PP" |] in
@@ -401,6 +429,7 @@ let bldgen (line : string) : string =
   done;
   let st = fst !acc in
   if List.exists (fun ls -> ls.l_to <> None) st.lsts then emit "+600";
+  if !blocked then emit "b";
   if (fst !acc).paused then emit "R";
   if has 'h' then emit "H" else if has 'g' then emit "G";
   Printf.sprintf "W=%d;L=%d;B=%s;S=%s;ops=%s" w l (List.assoc "B" fields) (try List.assoc "S" fields with Not_found -> "a") (String.concat " " (List.rev !out))
